@@ -50,6 +50,10 @@ package operations
 //@   ensures [ops-free] !mutexHeld[addr(o.diskOperationLock)]
 
 //@ func (*Operations).archive
+//@   property C03
+//@   at call AddSuffix#1 assert [suffix-added-with-size-record] has(hdr.PAXRecords, "STFS.UncompressedSize")
+//@   property C01
+//@   at call SignHeader#1 assert [indexed-header-is-written-header] hdrToAppend == deref(hdr)
 //@   property C05
 //@   at call Close#3 assert [sized-content-is-written] false
 //@   property C05
@@ -63,6 +67,11 @@ package operations
 //@   ensures [drive-free] !driveHeld
 
 //@ func (*Operations).Update
+//@   property C03
+//@   at call AddSuffix#1 assert [suffix-added-with-size-record] has(hdr.PAXRecords, "STFS.UncompressedSize")
+//@   property C01
+//@   at call SignHeader#1 assert [indexed-header-is-written-header] hdrToAppend == deref(hdr)
+//@   at call SignHeader#2 assert [indexed-header-is-written-header-meta] hdrToAppend == deref(hdr)
 //@   property C05
 //@   at call Close#3 assert [sized-content-is-written] false
 //@   property C05
